@@ -13,3 +13,4 @@ def run(ck):
     traps.r7_error_term_width(ck, P)
     traps.r8_fill_count_restart(ck, P)
     traps.r9_edge_step_conservation(ck, P)
+    traps.r10_row_weight_constant(ck, P)
